@@ -53,6 +53,9 @@ struct Up {
     faults: Vec<UpFault>,
     final_qtype: u16,
     state: Arc<Mutex<UpState>>,
+    /// real-time scenarios: for the lookup (apex of zone, type) serve this
+    /// RRSIG instead of the genuine one(s)
+    dnskey_sig: Option<(usize, u16, Rec)>,
 }
 
 #[derive(Debug)]
@@ -91,6 +94,12 @@ impl Up {
         let mut resp = resolve(&self.world, &qname, qtype);
         let mut m = resp.to_msg(&qname, qtype);
         m.id = msg.header().id();
+        if let Some((zi, t, sig)) = &self.dnskey_sig {
+            if qtype == *t && name_eq(&self.world.zones[*zi].apex, &qname) {
+                m.answer.retain(|r| !(r.rtype == T_RRSIG && r.covered() == *t));
+                m.answer.push(sig.clone());
+            }
+        }
         let mut opts = WriteOpts::default();
         let mut wire_kind = None;
         for (fi, f) in self.faults.iter().enumerate() {
@@ -393,7 +402,7 @@ fn run_case(case: &Case, ctx: &mut Ctx) -> CaseResult {
         up_faults.clear();
     }
     let state = Arc::new(Mutex::new(UpState::default()));
-    let up = Up { world: w.clone(), faults: up_faults.clone(), final_qtype: qtype, state: state.clone() };
+    let up = Up { world: w.clone(), faults: up_faults.clone(), final_qtype: qtype, state: state.clone(), dnskey_sig: None };
     let ta = match TrustAnchors::from_u8(w.anchors.as_bytes()) {
         Ok(t) => t,
         Err(e) => vfail!("world:trust-anchor-text-rejected", "{e}\n{}", w.anchors),
@@ -517,7 +526,7 @@ fn run_case(case: &Case, ctx: &mut Ctx) -> CaseResult {
     if let (Some((do_bit, ad_bit, cd_bit)), None) = (case.via_connection, &panicked) {
         use domain::base::{MessageBuilder, Name, Rtype};
         let state2 = Arc::new(Mutex::new(UpState::default()));
-        let up2 = Up { world: w.clone(), faults: up_faults.clone(), final_qtype: qtype, state: state2 };
+        let up2 = Up { world: w.clone(), faults: up_faults.clone(), final_qtype: qtype, state: state2, dnskey_sig: None };
         let mut config = Config::new();
         config.set_bad_signatures(case.bad_sigs);
         let ta2 = TrustAnchors::from_u8(w.anchors.as_bytes()).expect("anchors parsed before");
@@ -695,63 +704,175 @@ fn unix_now() -> u32 {
     std::time::SystemTime::now().duration_since(std::time::UNIX_EPOCH).map(|d| d.as_secs() as u32).unwrap_or(0)
 }
 
-/// The validator keeps the outcome of signature checks in a cache. A
-/// signature that was valid when first seen must not stay "valid" after its
-/// expiration time. This is the only check that needs real time to pass
-/// (about four seconds): `Timestamp::now()` cannot be driven from outside.
-/// Returns Ok(false) when the machine was too slow for the scenario.
-fn sig_cache_expiry_check() -> Result<bool, Violation> {
+/// Two scenarios that need real time to pass (about four seconds together;
+/// `Timestamp::now()` and the validator's `Instant`s cannot be driven from
+/// outside). Both use one `ValidationContext` twice, before and after a
+/// signature expires, and share the waiting time.
+///
+/// A (signature cache): `www.zone.tld. A` with an RRSIG expiring in 2 s is
+///   Secure; the same message after expiry must not be Secure.
+/// B (node cache): the RRSIG over the DNSKEY RRset of `zone.tld.` expires in
+///   2 s, everything else is valid for a day. `www.zone.tld. A` is Secure;
+///   after expiry `mx.zone.tld. MX` (own RRSIG still valid) must not be
+///   Secure, because the chain anchor → DS → DNSKEY has an expired link.
+///
+/// Only schedule-independent facts are asserted: the "before" verdict is
+/// judged only if the clock still shows a time ≤ expiration after the call
+/// returned, the "after" calls are made once the clock is at least two
+/// seconds past expiration. Returns the scenarios that were skipped because
+/// the machine was too slow.
+fn realtime_checks() -> Result<Vec<&'static str>, Violation> {
     let shape = Shape { z: [ZoneShape::plain(); 4], ta: Ta::RootDs };
     let w = world(&shape).map_err(|e| Violation::new("world:construction-or-signer-cross-check-failed", e))?;
     let z = &w.zones[Z_ZONE];
-    let qname = rel_name("www", &z.apex);
-    let resp = resolve(&w, &qname, T_A);
-    let mut m = resp.to_msg(&qname, T_A);
-    let rrset: Vec<Rec> = m.answer.iter().filter(|r| r.rtype == T_A).cloned().collect();
+    let www = rel_name("www", &z.apex);
+    let mx = rel_name("mx", &z.apex);
+    let clean = |name: &Nm, t: u16| write_msg(&resolve(&w, name, t).to_msg(name, t), &WriteOpts::default());
     let exp = unix_now().wrapping_add(2);
-    let sig = craft_sig(z.zsk, &z.dnskey_rdata(false), &z.apex, &rrset, label_count(&qname) as u8, 3600, exp.wrapping_sub(1000), exp, None);
+    // A: the answer's own RRSIG expires
+    let mut m = resolve(&w, &www, T_A).to_msg(&www, T_A);
+    let rrset: Vec<Rec> = m.answer.iter().filter(|r| r.rtype == T_A).cloned().collect();
+    let sig = craft_sig(z.zsk, &z.dnskey_rdata(false), &z.apex, &rrset, label_count(&www) as u8, 3600, exp.wrapping_sub(1000), exp, None);
     m.answer.retain(|r| r.rtype != T_RRSIG);
     m.answer.push(sig);
-    let bytes = write_msg(&m, &WriteOpts::default());
-    let state = Arc::new(Mutex::new(UpState::default()));
-    let up = Up { world: w.clone(), faults: vec![], final_qtype: T_A, state };
-    let ta = TrustAnchors::from_u8(w.anchors.as_bytes()).map_err(|e| Violation::new("world:trust-anchor-text-rejected", format!("{e}")))?;
-    let vc = ValidationContext::new(ta, up);
-    let run = |vc: &ValidationContext<Up>| -> Result<Result<Status, String>, Violation> {
+    let bytes_a = write_msg(&m, &WriteOpts::default());
+    // B: the RRSIG over zone.tld.'s DNSKEY RRset expires
+    let dnskeys = z.node(&z.apex).and_then(|n| n.rrsets.get(&T_DNSKEY)).cloned().ok_or_else(|| Violation::new("world:no-dnskey", "zone.tld. has no DNSKEY RRset"))?;
+    let ksig = craft_sig(z.ksk, &z.dnskey_rdata(true), &z.apex, &dnskeys, label_count(&z.apex) as u8, 3600, exp.wrapping_sub(1000), exp, None);
+    let bytes_b1 = clean(&www, T_A);
+    let bytes_b2 = clean(&mx, T_MX);
+    // C: the RRSIG over the DNSKEY RRset of the trust-anchor zone expires
+    let root = &w.zones[Z_ROOT];
+    let root_keys = root.node(&root.apex).and_then(|n| n.rrsets.get(&T_DNSKEY)).cloned().ok_or_else(|| Violation::new("world:no-dnskey", "the root has no DNSKEY RRset"))?;
+    let rsig = craft_sig(root.ksk, &root.dnskey_rdata(true), &root.apex, &root_keys, 0, 3600, exp.wrapping_sub(1000), exp, None);
+    let bytes_c1 = clean(&rel_name("www", &root.apex), T_A);
+    let bytes_c2 = clean(&rel_name("mx", &root.apex), T_MX);
+    // D: the RRSIG over the DS RRset of zone.tld. (in tld.) expires
+    let tld = &w.zones[Z_TLD];
+    let ds = tld.node(&z.apex).and_then(|n| n.rrsets.get(&T_DS)).cloned().ok_or_else(|| Violation::new("world:no-ds", "tld. has no DS for zone.tld."))?;
+    let dsig = craft_sig(tld.zsk, &tld.dnskey_rdata(false), &tld.apex, &ds, label_count(&z.apex) as u8, 3600, exp.wrapping_sub(1000), exp, None);
+    let mk = |dnskey_sig: Option<(usize, u16, Rec)>| -> Result<ValidationContext<Up>, Violation> {
+        let up = Up { world: w.clone(), faults: vec![], final_qtype: T_A, state: Arc::new(Mutex::new(UpState::default())), dnskey_sig };
+        let ta = TrustAnchors::from_u8(w.anchors.as_bytes()).map_err(|e| Violation::new("world:trust-anchor-text-rejected", format!("{e}")))?;
+        Ok(ValidationContext::new(ta, up))
+    };
+    let vc_a = mk(None)?;
+    let vc_b = mk(Some((Z_ZONE, T_DNSKEY, ksig)))?;
+    let vc_c = mk(Some((Z_ROOT, T_DNSKEY, rsig)))?;
+    let vc_d = mk(Some((Z_ZONE, T_DS, dsig)))?;
+    let run = |vc: &ValidationContext<Up>, bytes: &Vec<u8>| -> Result<Result<Status, String>, Violation> {
         let mut msg = Message::from_octets(bytes.clone()).expect("message");
         guarded("validate_msg", || block_on_paused(async { vc.validate_msg(&mut msg).await })).map(|r| r.map(|x| st(x.0)).map_err(|e| format!("{e}")))
     };
-    let first = run(&vc)?;
-    if unix_now() > exp {
-        return Ok(false);
+    let mut skipped = vec![];
+    // step 1 of both
+    let first_a = run(&vc_a, &bytes_a)?;
+    let a_in_time = unix_now() <= exp;
+    let first_b = run(&vc_b, &bytes_b1)?;
+    let b_in_time = unix_now() <= exp;
+    let first_c = run(&vc_c, &bytes_c1)?;
+    let c_in_time = unix_now() <= exp;
+    let first_d = run(&vc_d, &bytes_b1)?;
+    let d_in_time = unix_now() <= exp;
+    if c_in_time && first_c != Ok(Status::Secure) {
+        return Err(Violation::new("node-cache:fresh-anchor-dnskey-signature-not-secure", format!("www. A with a root DNSKEY RRSIG valid for two more seconds gives {first_c:?}")));
     }
-    if first != Ok(Status::Secure) {
-        return Err(Violation::new("sig-cache:fresh-signature-not-secure", format!("a signature valid for two more seconds gives {first:?}")));
+    if d_in_time && first_d != Ok(Status::Secure) {
+        return Err(Violation::new("node-cache:fresh-ds-signature-not-secure", format!("www.zone.tld. A with a DS RRSIG valid for two more seconds gives {first_d:?}")));
     }
-    while unix_now() <= exp.wrapping_add(1) {
+    if !c_in_time {
+        skipped.push("node-cache-anchor");
+    }
+    if !d_in_time {
+        skipped.push("node-cache-ds");
+    }
+    if a_in_time && first_a != Ok(Status::Secure) {
+        return Err(Violation::new("sig-cache:fresh-signature-not-secure", format!("a signature valid for two more seconds gives {first_a:?}")));
+    }
+    if b_in_time && first_b != Ok(Status::Secure) {
+        return Err(Violation::new("node-cache:fresh-dnskey-signature-not-secure", format!("www.zone.tld. A with a DNSKEY RRSIG valid for two more seconds gives {first_b:?}")));
+    }
+    if !a_in_time {
+        skipped.push("sig-cache");
+    }
+    if !b_in_time {
+        skipped.push("node-cache");
+    }
+    if skipped.len() == 4 {
+        return Ok(skipped);
+    }
+    while unix_now() < exp.wrapping_add(2) {
         std::thread::sleep(std::time::Duration::from_millis(200));
     }
-    let second = match run(&vc) {
-        Ok(r) => r,
-        Err(v) => {
-            let msg = v.sig.rsplit(':').next().unwrap_or("").to_string();
-            return Err(Violation::new(format!("sig-cache:panic-after-expiry:{msg}"), format!("the same message was validated again with the same context {} s after its RRSIG expired: {}", unix_now().wrapping_sub(exp), v.detail)));
+    let late = unix_now().wrapping_sub(exp);
+    if a_in_time {
+        match run(&vc_a, &bytes_a) {
+            Err(v) => {
+                let msg = v.sig.rsplit(':').next().unwrap_or("").to_string();
+                return Err(Violation::new(format!("sig-cache:panic-after-expiry:{msg}"), format!("the same message was validated again with the same context {late} s after its RRSIG expired: {}", v.detail)));
+            }
+            Ok(Ok(Status::Secure)) => {
+                return Err(Violation::new(
+                    "sig-cache:expired-signature-still-secure",
+                    format!("www.zone.tld. A with an RRSIG expiring at {exp} was Secure before expiry and is still Secure {late} s after it (same ValidationContext: the cached signature check ignores time)"),
+                ));
+            }
+            Ok(_) => {}
         }
-    };
-    if second == Ok(Status::Secure) {
-        return Err(Violation::new(
-            "sig-cache:expired-signature-still-secure",
-            format!("www.zone.tld. A with an RRSIG expiring at {exp} was Secure before expiry and is still Secure {} s after it (same ValidationContext: the cached signature check ignores time)", unix_now().wrapping_sub(exp)),
-        ));
     }
-    Ok(true)
+    if b_in_time {
+        match run(&vc_b, &bytes_b2) {
+            Err(v) => {
+                let msg = v.sig.rsplit(':').next().unwrap_or("").to_string();
+                return Err(Violation::new(format!("node-cache:panic-after-expiry:{msg}"), format!("mx.zone.tld. MX validated {late} s after the RRSIG over the zone's DNSKEY RRset expired: {}", v.detail)));
+            }
+            Ok(Ok(Status::Secure)) => {
+                return Err(Violation::new(
+                    "node-cache:expired-dnskey-signature-still-secure",
+                    format!("the RRSIG over the DNSKEY RRset of zone.tld. expired at {exp} (the upstream serves no other). Before that www.zone.tld. A was Secure; {late} s after it mx.zone.tld. MX (own RRSIG valid) is still Secure with the same ValidationContext: the cached zone node outlives the signature that authenticated its keys"),
+                ));
+            }
+            Ok(_) => {}
+        }
+    }
+    for (in_time, vc, bytes, sig, what) in [
+        (c_in_time, &vc_c, &bytes_c2, "node-cache:expired-anchor-dnskey-signature-still-secure", "the RRSIG over the DNSKEY RRset of the trust-anchor zone (root) expired; before that www. A was Secure, now mx. MX (own RRSIG valid)"),
+        (d_in_time, &vc_d, &bytes_b2, "node-cache:expired-ds-signature-still-secure", "the RRSIG over the DS RRset of zone.tld. expired; before that www.zone.tld. A was Secure, now mx.zone.tld. MX (own RRSIG valid)"),
+    ] {
+        if !in_time {
+            continue;
+        }
+        match run(vc, bytes) {
+            Err(v) => return Err(Violation::new(format!("{sig}:panic"), v.detail)),
+            Ok(Ok(Status::Secure)) => return Err(Violation::new(sig, format!("{what} is still Secure {late} s after the expiry with the same ValidationContext: the cached node outlives the signature that authenticated it"))),
+            Ok(_) => {}
+        }
+    }
+    Ok(skipped)
+}
+
+/// Outcome of the real-time scenarios when they already ran in this process
+/// (the regression tier replays them): they are not repeated by `extra`.
+static REALTIME_DONE: Mutex<Option<Vec<&'static str>>> = Mutex::new(None);
+
+fn realtime_once() -> Result<Vec<&'static str>, Violation> {
+    if let Some(s) = REALTIME_DONE.lock().unwrap().clone() {
+        return Ok(s);
+    }
+    let r = realtime_checks()?;
+    *REALTIME_DONE.lock().unwrap() = Some(r.clone());
+    Ok(r)
 }
 
 fn extra(_opts: &RunOpts, agg: &mut Agg) -> Result<(), (Violation, Vec<u8>)> {
-    match sig_cache_expiry_check() {
-        Ok(done) => {
-            agg.evaluations += 1;
-            agg.extra_notes.insert("sig_cache_expiry_check".into(), if done { "held" } else { "skipped (machine too slow)" }.into());
+    match realtime_once() {
+        Ok(skipped) => {
+            agg.evaluations += 4 - skipped.len() as u64;
+            agg.extra_notes.insert("node_cache_anchor_expiry_check".into(), (if skipped.contains(&"node-cache-anchor") { "skipped (machine too slow)" } else { "held" }).into());
+            agg.extra_notes.insert("node_cache_ds_expiry_check".into(), (if skipped.contains(&"node-cache-ds") { "skipped (machine too slow)" } else { "held" }).into());
+            let note = |name: &str| if skipped.contains(&name) { "skipped (machine too slow)" } else { "held" };
+            agg.extra_notes.insert("sig_cache_expiry_check".into(), note("sig-cache").into());
+            agg.extra_notes.insert("node_cache_expiry_check".into(), note("node-cache").into());
             Ok(())
         }
         Err(v) => Err((v, vec![1])),
@@ -760,7 +881,8 @@ fn extra(_opts: &RunOpts, agg: &mut Agg) -> Result<(), (Violation, Vec<u8>)> {
 
 fn replay_extra(_data: &[u8], ctx: &mut Ctx) -> CaseResult {
     ctx.class("sig-cache-expiry");
-    sig_cache_expiry_check().map(|_| ())
+    ctx.class("node-cache-expiry");
+    realtime_once().map(|_| ())
 }
 
 fn health(c: &BTreeMap<String, u64>, thorough: bool) -> Result<(), String> {
